@@ -212,10 +212,56 @@ SHEETS += [
  <xsl:template match="/"><r><xsl:for-each select="//item"><e xsl:use-attribute-sets="as"/><xsl:element name="f" use-attribute-sets="as"/></xsl:for-each></r></xsl:template>
 </xsl:stylesheet>''' % (X, VX, G)),
 ]
+# ---- failures while a POOLED object holds partial content: the abort comes right after character data was
+# written into a result tree fragment (pooled FormatterToSourceTree; depths 1-3, with-param bodies), into an
+# attribute / comment / PI / message body (pooled FormatterToText + string), or in the middle of nested XPath
+# string / node-set work (string and node-list caches).  On sources without fail="1" the same sheets build the
+# same things and print their string values and copies, so they also serve as observers.
+# K selects WHERE the failing item aborts (4 items -> 1, 5 items -> 2).
+def term_if(cond):
+    return '<xsl:if test="@fail and (%s)"><xsl:message terminate="yes">stop with partial content</xsl:message></xsl:if>' % cond
+
+
+SHEETS += [
+    ("run", "error-in-rtf-text", '''<xsl:stylesheet %s %s><xsl:output method="text"/>
+ <xsl:variable name="K" select="count(//item) mod 3"/>
+ <xsl:template name="show"><xsl:param name="p"/>{<xsl:value-of select="$p"/>}</xsl:template>
+ <xsl:template match="/"><xsl:for-each select="//item">
+  <xsl:variable name="v">LEFT1-<xsl:value-of select="@id"/>%s<xsl:if test="$K = 0"><xsl:value-of select="string(%s)"/></xsl:if></xsl:variable>[<xsl:value-of select="$v"/>]<xsl:copy-of select="$v"/>
+  <xsl:call-template name="show"><xsl:with-param name="p">LEFTW-<xsl:value-of select="@g"/>%s</xsl:with-param></xsl:call-template>
+ </xsl:for-each></xsl:template>
+</xsl:stylesheet>''' % (X, VX, term_if("$K = 1"), G, term_if("$K = 2"))),
+    ("run", "error-in-rtf-nested", '''<xsl:stylesheet %s><xsl:output method="xml" omit-xml-declaration="yes"/>
+ <xsl:variable name="K" select="count(//item) mod 3"/>
+ <xsl:template match="/"><r><xsl:for-each select="//item">
+  <xsl:variable name="a">A<xsl:value-of select="@id"/>-<xsl:variable name="b">B<xsl:value-of select="@g"/>-<xsl:variable name="c">C<xsl:value-of select="@w"/>-%s</xsl:variable><xsl:value-of select="$c"/>|%s<e><xsl:copy-of select="$c"/></e>tail</xsl:variable><xsl:value-of select="$b"/>|<xsl:copy-of select="$b"/>end</xsl:variable>
+  <i v="{$a}"><xsl:copy-of select="$a"/></i>
+ </xsl:for-each></r></xsl:template>
+</xsl:stylesheet>''' % (X, term_if("$K = 1"), term_if("$K = 2"))),
+    ("ok", "rtf-observer", '''<xsl:stylesheet %s><xsl:output method="text"/>
+ <xsl:template name="show"><xsl:param name="p"/>{<xsl:value-of select="$p"/>}</xsl:template>
+ <xsl:template match="/"><xsl:variable name="w">items=<xsl:value-of select="count(//item)"/><xsl:variable name="x">in=<xsl:value-of select="name(/*)"/><xsl:variable name="y">deep</xsl:variable>+<xsl:value-of select="$y"/></xsl:variable>;<xsl:value-of select="$x"/></xsl:variable>[<xsl:value-of select="$w"/>]<xsl:copy-of select="$w"/>
+  <xsl:call-template name="show"><xsl:with-param name="p">wp=<xsl:value-of select="count(//*)"/></xsl:with-param></xsl:call-template></xsl:template>
+</xsl:stylesheet>''' % X),
+    ("run", "error-in-attribute-body", '''<xsl:stylesheet %s><xsl:output method="xml" omit-xml-declaration="yes"/>
+ <xsl:variable name="K" select="count(//item) mod 3"/>
+ <xsl:template match="/"><r><xsl:for-each select="//item"><e>
+  <xsl:attribute name="a">LEFTA-<xsl:value-of select="@id"/>%s</xsl:attribute>
+  <xsl:comment>LEFTC-<xsl:value-of select="@g"/>%s</xsl:comment>
+  <xsl:processing-instruction name="pi">LEFTP-<xsl:value-of select="@w"/>%s</xsl:processing-instruction>
+  <xsl:message>LEFTM-<xsl:value-of select="@id"/></xsl:message>
+ </e></xsl:for-each></r></xsl:template>
+</xsl:stylesheet>''' % (X, term_if("$K = 1"), term_if("$K = 2"), term_if("$K = 0"))),
+    ("run", "error-in-xpath-caches", '''<xsl:stylesheet %s %s><xsl:output method="text"/>
+ <xsl:template match="/"><xsl:for-each select="//item"><xsl:value-of select="translate(concat('abc-', @id, '-', substring-before(concat(@g, ':', .), ':')), 'a', substring(string(%s), 1, 1))"/>;<xsl:value-of select="count((//item | //sec | /*)[%s][position() &lt; 4])"/>;<xsl:value-of select="normalize-space(concat(' x ', string((//item[%s])[last()]/@id), ' '))"/>,</xsl:for-each></xsl:template>
+</xsl:stylesheet>''' % (X, VX, G, G, G)),
+]
+
 LAZY_SHEETS = [i for i, t in enumerate(SHEETS) if t[1] in (
     "error-in-global-var-body", "error-in-global-var-select", "error-in-global-param-default",
     "error-in-call-template-params", "error-in-apply-imports", "error-in-attribute-set", "error-in-key-build",
-    "error-in-sort-key-text", "error-in-number-count")]
+    "error-in-sort-key-text", "error-in-number-count",
+    "error-in-rtf-text", "error-in-rtf-nested", "error-in-attribute-body", "error-in-xpath-caches")]
 
 # which sheets use the same facility as an aborting sheet (a failure is followed by one of them)
 FACILITY = {
@@ -223,11 +269,14 @@ FACILITY = {
     "number": ["number", "error-in-number-count", "deep-no-boom"],
     "key": ["keys+modes", "document", "error-in-key-build", "deep-no-boom"],
     "format-number": ["format-number-custom", "error-in-format-number"],
+    "rtf": ["rtf-observer", "error-in-rtf-text", "error-in-rtf-nested", "rtf+nodeset", "deep-no-boom", "error-in-global-var-body"],
+    "attribute-body": ["error-in-attribute-body", "attrsets+text", "deep-no-boom", "error-in-attribute-set", "rtf-observer"],
+    "xpath-caches": ["error-in-xpath-caches", "vars+recursion", "sort+modes", "rtf-observer"],
 }
 
 
 def facility_of(tag):
-    for f in ("sort", "number-count", "key", "format-number"):
+    for f in ("sort", "number-count", "key", "format-number", "rtf", "attribute-body", "xpath-caches"):
         if f in tag:
             return "number" if f == "number-count" else f
     return None
